@@ -189,6 +189,100 @@ def run(ctx):
                               e.get("ln"), "without matches()" if not under_match else ("without a preceding update_value" if not upd_before else "to a non-true value")),
                           (tt, e.get("ln")))
 
+    # ---- R01.7: a value-taking option never consumes a bundle of several letters
+    ctx.rule("R01.7", "a value-taking option's letter hidden inside a bundle is never consumed (the update is unreachable for bundles)")
+    parse = prog.fn(PARSE_VEC)
+    fe7 = facts.FactsEngine(prog, cg)
+    n7 = 0
+    seen7 = set()
+    if parse is not None and parse.has_cfg:
+        INp, beforep = fe7.analyse(parse)
+        for bid, i, e in parse.roots():
+            for cn in walk(e["expr"], into_sc=True):
+                if cn.get("k") != "call" or short(cn.get("name") or "") != "try_parse_as_option":
+                    continue
+                callee = prog.fn(cn.get("callee")) if cn.get("callee") else None
+                if callee is None or not callee.has_cfg or bid not in INp:
+                    continue
+                # the callee analysed in the caller's terms (parameters replaced by the argument expressions), starting
+                # from what parse() knows at the call
+                env = {"this": None, "params": {p0["name"]: a for p0, a in zip(callee.params, cn.get("args", [])) if p0.get("name")}}
+                # facts of the block on entry (the call sits in a short-circuit chain: later operands see the earlier ones false)
+                init = INp[bid]
+                INc, beforec = fe7.analyse(callee, env, "R01.7:%s:%s" % (bid, fmt(cn)[:40]), init)
+                for b2, i2, e2 in callee.roots():
+                    for un in elem_calls(e2):
+                        if not is_update_call(un) or b2 not in INc:
+                            continue
+                        if (callee.id, b2, i2) in seen7:
+                            continue
+                        seen7.add((callee.id, b2, i2))
+                        n7 += 1
+                        recv = un.get("this")
+                        # the matches() that guards this update, resolved for the static type of the receiver
+                        st = list(beforec.get((b2, i2)) or [])
+                        margs = None
+                        for g in st:
+                            pass
+                        mcall = None
+                        for b3, i3, e3 in callee.roots():
+                            for mn in elem_calls(e3):
+                                if short(mn.get("name") or "") == "matches" and fmt(mn.get("this")) == fmt(recv):
+                                    mcall = mn
+                        tok = mcall["args"][0] if mcall and mcall.get("args") else None
+                        site = "%s@%s" % (short(callee.qual), _rel(callee, e2))
+                        if tok is None:
+                            ctx.broken("R01.7", callee, "guarding-matches:" + site, "no matches() call on the updated object found: idiom not recognised", (callee, e2.get("ln")))
+                            continue
+                        stype = (ir.unwrap(recv).get("type") or "").replace("*", "").replace("const", "").strip()
+                        target = _final_overrider(prog, stype, "matches") or _final_overrider(prog, NS + stype.split("::")[-1], "matches")
+                        if target is None:
+                            ctx.broken("R01.7", callee, "guarding-matches:" + site, "cannot resolve matches() for receiver type %s" % stype, (callee, e2.get("ln")))
+                            continue
+                        tok_s = logic.subst(tok, env)
+                        F = lg.fn_formula(target, {"this": logic.subst(recv, env), "params": {target.params[0]["name"]: tok_s}})
+                        isf = prog.fn(NS + "user_input::is_short() const")
+                        IS = lg.fn_formula(isf, {"this": tok_s, "params": {}}) if isf is not None and isf.has_cfg else None
+                        if F is None or IS is None:
+                            ctx.broken("R01.7", callee, "guarding-matches:" + site, "matches()/is_short() is not a loop-free predicate", (callee, e2.get("ln")))
+                            continue
+                        known = st + [F]
+                        atoms = set()
+                        for g in known:
+                            atoms |= set(logic.atoms_of(g))
+                        tk = re.escape(logic.canon(tok_s))
+                        bund = [a for a in atoms if re.fullmatch(r"\(1 < %s\.as_short_list\(\)\.size\(\)\)" % tk, a) or re.fullmatch(r"\(2 < %s\.name_\.size\(\)\)" % tk, a)
+                                or re.fullmatch(r"\(2 < %s\.name\(\)\.size\(\)\)" % tk, a)]
+                        proved = False
+                        for a in bund:
+                            r, cm = logic.entails(known, Or(Not(IS), Not(("a", a))), lg.axioms)
+                            if r is True:
+                                proved = True
+                        ctx.check(proved, "R01.7", callee, "no-bundle-at-update:" + site,
+                                  "update_value of a value-taking option (line %s) is reachable for a short token with several letters (%s): the option takes the token, "
+                                  "every other letter of the bundle is dropped without an error (`-vo file` sets o and loses v)"
+                                  % (e2.get("ln"), "a size guard exists but does not cover this path" if bund else "no guard on the number of letters at all"), (callee, e2.get("ln")),
+                                  why_ok="is_short => !(several letters)")
+    ctx.need("R01.7", "update_value sites in try_parse_as_option (both instantiations)", n7, 4)
+
+    # ---- R01.8: every letter of a bundle is a counted toggle
+    ctx.rule("R01.8", "try_parse_as_toggle reports a short token as consumed only when all its letters were matched (letter accounting)")
+    if tt:
+        # necessary: some rejecting exit (raise<parsing_error>) is reachable inside try_parse_as_toggle or base/toggle::matches
+        # refuses partially-declared bundles. Sufficient (recognised idiom): an accumulator started at 0, increased only by
+        # count(short_name()) of matched toggles, compared with as_short_list().size(); the mismatch edge raises parsing_error
+        # and dominates the true return.
+        raises = [b for b in tt.reachable_blocks() if tt.is_noreturn(b) and any(exc == C04.ALLOWED for _, exc, _ in C04.raise_nodes(tt, b))]
+        acc = _letter_accounting(tt)
+        if not raises:
+            ctx.bad("R01.8", tt, "letters-accounted", "try_parse_as_toggle has no rejecting exit: once one toggle of a bundle matched, the token counts as consumed and every "
+                    "other letter - undeclared ones included - is dropped (`-vz` is accepted and z vanishes)", tt)
+        elif acc is None:
+            ctx.broken("R01.8", tt, "letters-accounted", "try_parse_as_toggle rejects some tokens, but the letter accounting is not in a recognised form (accumulate count(short_name()) of the "
+                       "matched toggles, compare with as_short_list().size(), raise parsing_error on mismatch)", tt)
+        else:
+            ok, why = acc
+            ctx.check(ok, "R01.8", tt, "letters-accounted", why, tt, why_ok=why)
     # ---- R01.4
     for k in KINDS:
         f = one(ctx, "R01.4", NS + k + "::update_value")
@@ -214,6 +308,7 @@ def run(ctx):
     lg = logic.Logic(prog, cg)
     bm = one(ctx, "R01.5", NS + "base::matches")
     tm = one(ctx, "R01.5", NS + "toggle::matches")
+    all_accessors = set()
     for f in (bm, tm):
         if not f:
             continue
@@ -223,15 +318,25 @@ def run(ctx):
             ctx.broken("R01.5", f, "matches-skeleton", "matches() is not a loop-free boolean function", f)
             continue
         own = []
+        accessors = set()
         for a in sorted(logic.atoms_of(form)):
-            if "==" in a and ("this.name()" in a or "this.name_" in a) and (pn + ".") in a:
-                own.append(("a", a))
+            # equality of the option's whole name with a whole-name accessor of the token: (tok.accessor() == this.name())
+            m = re.fullmatch(r"\((.+) == (.+)\)", a)
+            if m:
+                l, r = m.group(1), m.group(2)
+                if r not in ("this.name()", "this.name_"):
+                    l, r = r, l
+                ma = re.fullmatch(r"%s\.(\w+)\(\)" % re.escape(pn), l)
+                if r in ("this.name()", "this.name_") and ma:
+                    own.append(("a", a))
+                    accessors.add(ma.group(1))
             if ".count(this.short_name())" in a or ".count(this.short_)" in a:
                 # membership of the own letter: count(..) != 0 / 0 < count(..) / !(count(..) == 0)
                 own.append(Not(("a", a)) if re.search(r"== 0\)$", a) else ("a", a))
         if not own:
             ctx.bad("R01.5", f, "true-only-under-own-name", "%s contains no comparison of the token with the option's own name() or short_name()" % short(f.qual), f)
             continue
+        all_accessors |= accessors
         goal = own[0]
         for o in own[1:]:
             goal = Or(goal, o)
@@ -239,6 +344,27 @@ def run(ctx):
         ctx.check(r is True, "R01.5", f, "true-only-under-own-name",
                   "%s can return true although the token equals neither the option's name nor contains its letter (state %s): a foreign token would be consumed"
                   % (short(f.qual), {k: v for k, v in (cm or {}).items() if v}), f, why_ok="true => " + logic.show(goal)[:160])
+    # the whole-name accessors really return the whole name behind the fixed prefix their guard tests
+    PREFIX = {"as_named": ("is_named", 2), "name_without_prefix": ("has_prefix", 5)}  # "--" / "--no-"
+    UI = NS + "user_input"
+    for acc in sorted(all_accessors):
+        fs = [f for f in prog.methods_of(UI) if f.name == acc and f.has_cfg]
+        if acc not in PREFIX or len(fs) != 1:
+            ctx.broken("R01.5", UI + "::" + acc, "whole-name-accessor", "matches() compares the option's name with %s(), which is not one of the known whole-name accessors %s" % (acc, sorted(PREFIX)), "-")
+            continue
+        f = fs[0]
+        guard, k = PREFIX[acc]
+        rets_ = [ir.unwrap(e["expr"].get("e")) for _, _, e in f.roots() if e["expr"].get("k") == "return" and e["expr"].get("e") is not None]
+        ok = False
+        txt = [fmt(x) for x in rets_]
+        for x in rets_:
+            t = fmt(x).replace(", allocator{}", "")
+            if re.fullmatch(r"(basic_string)?\{\(name_\.begin\(\) \+ %d\), name_\.end\(\)\}" % k, t) or re.fullmatch(r"(name\(\)|name_)\.substr\(%d(, .*npos)?\)" % k, t):
+                ok = True
+        guarded = any(short(n.get("name") or "") == guard for _, _, e in f.roots() for n in elem_calls(e))
+        ctx.check(ok and len(rets_) == 1 and guarded, "R01.5", f, "whole-name-accessor:" + acc,
+                  "%s() returns %s%s: it must be the entire name behind the %d-character prefix, otherwise names that merely share a part with a declared name match" % (acc, txt, "" if guarded else " without testing %s()" % guard, k), f,
+                  why_ok="%s -> name[%d:]" % (acc, k))
     # ---- R01.6: the value that accompanies an option reaches the result uncut (shared with C02's R02.1)
     ctx.rule("R01.6", "an option's value token is stored whole (no part of the argument is silently dropped) - R02.1 re-evaluated")
     from . import C02
@@ -268,3 +394,96 @@ def _sig(fn, path, end):
                 if to == b:
                     sig.append(("+" if lab == "true" else "-") + fmt(t["cond"])[:24])
     return "/".join(sig)[:170] + ">" + end
+
+
+def _final_overrider(prog, cls, name):
+    """the function `name` an object of static type cls runs when cls has no subclass overriding it: nearest definition up the bases"""
+    seen = set()
+    st = [cls]
+    while st:
+        c = st.pop(0)
+        if c in seen:
+            continue
+        seen.add(c)
+        fs = [f for f in prog.methods_of(c) if f.name == name and f.has_cfg]
+        if fs:
+            return fs[0]
+        cd = prog.cls(c)
+        if cd:
+            st += [b["name"] for b in cd.get("bases", []) if b.get("name")]
+    return None
+
+
+def _letter_accounting(tt):
+    """(ok, text) if try_parse_as_toggle contains the count-and-compare idiom, None if not recognisable"""
+    # accumulator: an integral local initialised with 0 and only modified by `+= X.count(Y.short_name())`
+    accs = {}
+    for b, i, e in tt.roots():
+        x = e["expr"]
+        if x.get("k") == "decl":
+            for v in x.get("vars", []):
+                if literal_value(v.get("init")) == ("int", 0) and re.search(r"int|size_t|long|unsigned", v.get("type") or ""):
+                    accs[v["name"]] = []
+    for b, i, e in tt.roots():
+        for eff, lv, n in tree_effects(e["expr"], into_sc=False):
+            if eff == "write" and lv is not None:
+                kind, key, _ = lvalue_root(lv)
+                if kind == "local" and key in accs and not (n.get("k") == "decl"):
+                    accs[key].append((b, i, e, n))
+    best = None
+    for name, ws in accs.items():
+        if not ws:
+            continue
+        good = True
+        for b, i, e, n in ws:
+            r = fmt(ir.unwrap(n.get("r"))) if n.get("k") == "bin" and n.get("op") == "+=" else ""
+            if not re.search(r"as_short_list\(\)\.count\(.*short_name\(\)\)", r):
+                good = False
+            if not cfg.dominated_by_edge(tt, b, lambda c: ir.unwrap(c).get("k") == "call" and short(ir.unwrap(c).get("name") or "") == "matches"):
+                good = False
+        if not good:
+            continue
+        # the comparison with the bundle size whose mismatch edge raises
+        for b in tt.reachable_blocks():
+            c = tt.term(b).get("cond")
+            if c is None:
+                continue
+            # `flag && token.is_short() && acc != size`: the conjuncts of the branch condition
+            conj = []
+
+            def flat(x):
+                x = ir.unwrap(x)
+                if isinstance(x, dict) and x.get("k") == "bin" and x.get("op") == "&&":
+                    flat(x["l"])
+                    flat(x["r"])
+                else:
+                    conj.append(x)
+            flat(c)
+            cmpn = None
+            others = []
+            for x in conj:
+                bo = ir.as_binop(x)
+                sides = [fmt(ir.unwrap(bo[1])), fmt(ir.unwrap(bo[2]))] if bo and bo[0] in ("!=", "==") else []
+                if sides and name in sides and any(re.fullmatch(r".*\.as_short_list\(\)\.size\(\)", s0) for s0 in sides):
+                    cmpn = bo
+                else:
+                    others.append(x)
+            if cmpn is None:
+                continue
+            if len(conj) > 1 and cmpn[0] != "!=":
+                continue
+            # the other conjuncts may only restrict the test to matched short tokens
+            narrow = [fmt(x) for x in others if not (isinstance(x, dict) and ((x.get("k") == "ref" and x.get("type") in ("bool", "_Bool")) or (x.get("k") == "call" and short(x.get("name") or "") == "is_short")))]
+            mism = "true" if cmpn[0] == "!=" else "false"
+            tgt = [to for to, lab in tt.succs(b) if lab == mism]
+            raising = bool(tgt) and tt.is_noreturn(tgt[0]) and any(exc == C04.ALLOWED for _, exc, _ in C04.raise_nodes(tt, tgt[0]))
+            dom = cfg.dominators(tt)
+            covers = all(b in dom.get(rb, ()) for rb in tt.return_blocks())
+            if not covers and best is None:
+                best = (False, "the comparison of `%s` with the bundle size at line %s can be bypassed on the way to a return" % (name, tt.term(b).get("ln")))
+            elif len(tt.succs(b)) == 2 and not narrow:
+                best = (raising, "letters matched are accumulated in `%s` and compared with the bundle size at line %s; the mismatch edge %s"
+                        % (name, tt.term(b).get("ln"), "raises parsing_error" if raising else "does not raise parsing_error"))
+            elif narrow and best is None:
+                best = (False, "the comparison of `%s` with the bundle size at line %s only applies when %s: other bundles are not accounted" % (name, tt.term(b).get("ln"), narrow))
+    return best
